@@ -3,5 +3,5 @@ CONSTANTS
   DIMS = 2
   MAXIDX = 2
   MAXDEPTH = 3
-INVARIANTS WeightsSumToOne ActiveAreNonZero MaximalActive SpaceIsUnionOfBoxes SelectionIsLower SelectionWithinLimits SelectionHasOrigin
+INVARIANTS WeightsSumToOne MaximalActive ActiveNonEmpty SpaceIsUnionOfBoxes SelectionIsLower SelectionWithinLimits SelectionHasOrigin SelectionMonotone
 CHECK_DEADLOCK FALSE
